@@ -755,7 +755,23 @@ func (fr *Frame) appendOp(st *State, c *ssa.CallCommon, v ssa.Value) Val {
 		r.assumeBGIn(st, fmt.Sprintf("(forall ((%s Int)) (! (= (select %s %s) (ite (and (<= %s %s) (< %s %s)) (select (select %s (s_arr %s)) (+ (s_off %s) (- %s %s))) (select %s %s))) :pattern ((select %s %s))))",
 			q2, arr, q2, la, q2, q2, newLen, h, b.S, b.S, q2, la, arr0, q2, arr, q2))
 	}
-	r.heapSet(st, name, app("store", h, ref, arr))
+	freshHeap := app("store", h, ref, arr)
+	if n, ok := literalSliceLen(c.Args[1]); ok && n <= 32 && !zeroOffsetSlice(c.Args[0], map[ssa.Value]bool{}) {
+		// The base slice is not one this function built itself (it is a parameter, a field, or a re-slice such as x[:0]):
+		// when its capacity suffices Go appends IN PLACE, writing into the array the base shares with whoever else holds
+		// it. Both outcomes are modelled.
+		inplace := r.define("appinplace", SBool, app("<=", newLen, app("s_cap", a.S)))
+		ip := app("select", h, app("s_arr", a.S))
+		for j := 0; j < n; j++ {
+			ip = app("store", ip, add(app("s_off", a.S), add(la, num(int64(j)))), app("select", app("select", h, app("s_arr", b.S)), add(app("s_off", b.S), num(int64(j)))))
+		}
+		ipHeap := app("store", h, app("s_arr", a.S), ip)
+		ipRes := app("mk_slice", app("s_arr", a.S), app("s_off", a.S), newLen, app("s_cap", a.S))
+		r.heapSet(st, name, r.constOf(name, r.heapSort[name], ite(inplace, ipHeap, freshHeap)))
+		res.S = r.constOf("appres", SSlice, ite(inplace, ipRes, res.S))
+		return res
+	}
+	r.heapSet(st, name, freshHeap)
 	return res
 }
 
